@@ -1,4 +1,5 @@
 import SlVerif.Proofs.Gf128Reduce
+import SlVerif.Proofs.Gf128Bytes
 /-
   C19 — "the 128-bit binary-field product is the GF(2^128) multiplication".
 
@@ -111,6 +112,35 @@ theorem one_mul (a : ℕ) (ha : a < 2 ^ 128) : Gf.mul 1 a = a :=
   toPoly_injective (by
     rw [(mul_spec 1 a (by norm_num) ha).1, toPoly_one, _root_.one_mul, modP_self_of_lt ha])
 
+/-! ### the literal byte-array model
+
+  `Gf.mulBytes` (SlVerif/Model/Gf128Bytes.lean) follows the Rust statement by statement on u8 arrays:
+  the three nested loops with the `mask`, the in-place 17-byte shift with carry, the seven tap
+  statements in source order with per-byte truncation, `c[..16]`.  It is proved equal to the
+  integer-level model, so everything above holds for it. -/
+
+/-- For all 16-byte inputs the byte-array model returns the little-endian bytes of `Gf.mul` of the
+    little-endian values. -/
+theorem mulBytes_eq (a b : Bytes) (ha : a.length = 16) (hb : b.length = 16)
+    (hab : ∀ x ∈ a ++ b, x < 256) :
+    Gf.mulBytes a b = natToLe 16 (Gf.mul (leToNat a) (leToNat b)) :=
+  mulBytes_eq_natToLe a b ha hb hab
+
+/-- **C19 at byte level.**  The result is 16 bytes whose little-endian value is the representative
+    of the product of the operands' values modulo `P`. -/
+theorem mulBytes_spec (a b : Bytes) (ha : a.length = 16) (hb : b.length = 16)
+    (hab : ∀ x ∈ a ++ b, x < 256) :
+    toPoly (leToNat (Gf.mulBytes a b)) = (toPoly (leToNat a) * toPoly (leToNat b)) %ₘ P
+      ∧ (Gf.mulBytes a b).length = 16 ∧ ∀ x ∈ Gf.mulBytes a b, x < 256 := by
+  have hA : leToNat a < 2 ^ 128 := by
+    have := leToNat_lt a (fun x hx => hab x (List.mem_append_left _ hx)); rwa [ha] at this
+  have hB : leToNat b < 2 ^ 128 := by
+    have := leToNat_lt b (fun x hx => hab x (List.mem_append_right _ hx)); rwa [hb] at this
+  obtain ⟨h1, h2⟩ := mul_spec _ _ hA hB
+  rw [mulBytes_eq a b ha hb hab]
+  refine ⟨?_, natToLe_length _ _, natToLe_bytes _ _⟩
+  rw [leToNat_natToLe, Nat.mod_eq_of_lt h2, h1]
+
 /-! ### non-vacuity: the statements are about the running model, on concrete operands -/
 
 /-- `x^127 · x = x^128 ≡ x^7 + x^2 + x + 1`: the reduction really happens (0x87). -/
@@ -126,5 +156,13 @@ example : Gf.mul (2 ^ 128 - 1) (2 ^ 128 - 1) = Gf.specMul (2 ^ 128 - 1) (2 ^ 128
     product. -/
 example : ∃ a b, a < 2 ^ 128 ∧ b < 2 ^ 128 ∧ Gf.mul a b ≠ 0 ∧ Gf.mul a b ≠ a * b :=
   ⟨2 ^ 127, 2, by norm_num, by norm_num, by decide +kernel, by decide +kernel⟩
+
+/-- the byte-level hypotheses are satisfiable and the conclusion is about concrete bytes:
+    `x^127 · x` on byte strings gives the byte `0x87` followed by 15 zero bytes. -/
+example : Gf.mulBytes (natToLe 16 (2 ^ 127)) (natToLe 16 2) = natToLe 16 0x87 := by
+  rw [mulBytes_eq _ _ (natToLe_length _ _) (natToLe_length _ _)
+    (by intro x hx; rcases List.mem_append.mp hx with h | h <;> exact natToLe_bytes _ _ x h),
+    leToNat_natToLe, leToNat_natToLe]
+  decide +kernel
 
 end SlVerif.C19
